@@ -8,7 +8,7 @@ W=$(mktemp -d /tmp/seedwt.XXXXXX)
 git -C /repo worktree add -q --detach $W/wt HEAD || exit 2
 git -C $W/wt apply $S/patch.diff || { echo "patch does not apply"; git -C /repo worktree remove --force $W/wt; exit 2; }
 echo "== $ID (property $P)"
-PYTHONPATH=/repo /venv/bin/python $S/demo.py >/dev/null 2>&1; echo "demo on /repo (expect 0): $?"
+PYTHONDONTWRITEBYTECODE=1 PYTHONPATH=/repo /venv/bin/python $S/demo.py >/dev/null 2>&1; echo "demo on /repo (expect 0): $?"
 PYTHONPATH=$W/wt /venv/bin/python $S/demo.py >/dev/null 2>&1; echo "demo on patched (expect 1): $?"
 if [ -z "$SKIP_TESTS" ]; then ( cd $W/wt && PYTHONPATH=$W/wt timeout 1200 /venv/bin/python -m pytest -q -p no:cacheprovider 2>&1 | tail -1 ); fi
 cd /verif
